@@ -11,11 +11,13 @@ import (
 	"os"
 	"os/exec"
 	"path/filepath"
+	"runtime"
 	"sort"
 	"strconv"
 	"strings"
 	"sync"
 	"sync/atomic"
+	"time"
 
 	"github.com/BurntSushi/toml"
 	"github.com/google/uuid"
@@ -112,6 +114,15 @@ func c18idOfPre(pre []byte) string {
 	return uuid.NewSHA1(uuid.NameSpaceURL, []byte(hex.EncodeToString(d[:]))).String()
 }
 
+// c18ensure (re)creates the file if the work directory was swept away by a concurrent run of the
+// same check (bin/verifcheck.py clears build/work_C18 when it starts).
+func c18ensure(file, text string) {
+	if _, err := os.Stat(file); err != nil {
+		os.MkdirAll(filepath.Dir(file), 0700)
+		ioutil.WriteFile(file, []byte(text), 0600)
+	}
+}
+
 // c18readGroup parses a group file; dump "err" / "panic" / "ok …"; note = oracle complaint.
 func c18readGroup(file string) (dump string, g *app.Group, note string) {
 	defer func() {
@@ -121,7 +132,12 @@ func c18readGroup(file string) (dump string, g *app.Group, note string) {
 	}()
 	f, err := os.Open(file)
 	if err != nil {
-		return "io-error", nil, err.Error()
+		// e.g. descriptors exhausted by files the code under test left open: collect them, try once more
+		runtime.GC()
+		time.Sleep(50 * time.Millisecond)
+		if f, err = os.Open(file); err != nil {
+			return "io-error: " + err.Error(), nil, ""
+		}
 	}
 	defer f.Close()
 	g, err = app.ReadGroupDescToml(f)
@@ -341,18 +357,20 @@ func c18exec(c *h.Ctx, cs *h.Case) {
 				break
 			}
 			file := newFile(".group.toml")
-			ioutil.WriteFile(file, []byte(text), 0600)
+			c18ensure(file, text)
 			first, _, note := c18readGroup(file)
 			if note != "" {
 				cs.Fail("roster-id-not-from-keys", note)
 			}
 			for i := 1; i < n; i++ {
+				c18ensure(file, text)
 				if d, _, _ := c18readGroup(file); d != first {
 					cs.Fail("parses-disagree", fmt.Sprintf("parse %d of the same file differs from parse 1:\n%s\n%s", i+1, first, d))
 					break
 				}
 			}
 			if tk[3] == "1" {
+				c18ensure(file, text)
 				if d := c18child(c, file); d != first {
 					cs.Fail("process-disagree", fmt.Sprintf("a second process reads the same file differently:\n%s\n%s", first, d))
 				}
@@ -368,7 +386,7 @@ func c18exec(c *h.Ctx, cs *h.Case) {
 				break
 			}
 			file := newFile(".group.toml")
-			ioutil.WriteFile(file, []byte(text), 0600)
+			c18ensure(file, text)
 			first, g, _ := c18readGroup(file)
 			os.Remove(file)
 			if g == nil || g.Roster == nil {
@@ -377,6 +395,7 @@ func c18exec(c *h.Ctx, cs *h.Case) {
 				break
 			}
 			file2 := newFile(".group.toml")
+			os.MkdirAll(filepath.Dir(file2), 0700)
 			func() {
 				defer func() {
 					if r := recover(); r != nil {
@@ -388,6 +407,13 @@ func c18exec(c *h.Ctx, cs *h.Case) {
 					return
 				}
 				second, g2, note := c18readGroup(file2)
+				if strings.HasPrefix(second, "io-error") {
+					// work directory swept by a concurrent run of this check: save and read once more
+					os.MkdirAll(filepath.Dir(file2), 0700)
+					if err := g.Save(suite, file2); err == nil {
+						second, g2, note = c18readGroup(file2)
+					}
+				}
 				obs = second
 				if note != "" {
 					cs.Fail("roster-id-not-from-keys", note)
@@ -419,15 +445,17 @@ func c18exec(c *h.Ctx, cs *h.Case) {
 				break
 			}
 			file := newFile(".private.toml")
-			ioutil.WriteFile(file, []byte(text), 0600)
+			c18ensure(file, text)
 			first, hc := c18readPrivate(file)
 			for i := 1; i < n; i++ {
+				c18ensure(file, text)
 				if d, _ := c18readPrivate(file); d != first {
 					cs.Fail("parses-disagree", fmt.Sprintf("parse %d of the same private configuration differs:\n%s\n%s", i+1, first, d))
 					break
 				}
 			}
 			if tk[12] == "1" {
+				c18ensure(file, text)
 				if d := c18child(c, file); d != first {
 					cs.Fail("process-disagree", fmt.Sprintf("a second process reads the same private configuration differently:\n%s\n%s", first, d))
 				}
@@ -435,6 +463,7 @@ func c18exec(c *h.Ctx, cs *h.Case) {
 			os.Remove(file)
 			if hc != nil && first != "panic" {
 				file2 := newFile(".private.toml")
+				os.MkdirAll(filepath.Dir(file2), 0700)
 				if err := hc.Save(file2); err != nil {
 					cs.Fail("write-read-differs", "saving the private configuration failed: "+err.Error())
 				} else if d, _ := c18readPrivate(file2); d != first {
